@@ -12,8 +12,9 @@
      their names; deserialize looks them up by name) — exact when section names are unique;
    * the architecture is its id string (Architecture.make_id_str()); get_arch is modelled by
      membership in the exported table [arch_ids] (Gen/objarch.v, regenerated from /repo);
-   * debug info is NOT modelled: [serialize] is the function on objects whose debug_info is
-     None, [deserialize] answers Internal NotImplemented on JSON that has a "debug" key;
+   * this file is the part without debug info: [serialize] is the function on objects whose
+     debug_info is None, [deserialize] answers Internal NotImplemented on JSON that has a "debug"
+     key; objects WITH debug info: Model/DebugInfo.v + Model/ObjectFileFull.v;
    * int(s, base) is modelled on plain digit strings (optional sign for base 10); CPython also
      accepts surrounding white space, '_' separators, a sign and a repeated base prefix. *)
 From PV Require Import Lib.Py Lib.Val Lib.Json Gen.objarch.
@@ -246,7 +247,8 @@ Definition des_image (secnames : list string) (j : json) : result image :=
                           if str_in nm secnames then Ok nm else Internal AssertionError) sl ;;
   Ok (mkImage name address names).
 
-Definition deserialize (data : json) : result objectfile :=
+(* everything of objectfile.deserialize except the final `if "debug" in data` *)
+Definition deserialize_core (data : json) : result objectfile :=
   a <- jget "arch" data ;; arch <- get_arch a ;;
   entry <- (if jhas "entry_symbol_id" data
             then e <- jget "entry_symbol_id" data ;; as_opt_int e
@@ -260,8 +262,12 @@ Definition deserialize (data : json) : result objectfile :=
   symbols <- des_symbols [] yl ;;
   i <- jget "images" data ;; il <- as_list i ;;
   images <- mapM (des_image secnames) il ;;
-  if jhas "debug" data then Internal NotImplemented     (* debug info: not modelled *)
-  else Ok (mkObj arch sections symbols relocs images entry).
+  Ok (mkObj arch sections symbols relocs images entry).
+
+(* objects without debug info (debug info: Model/ObjectFileFull.v) *)
+Definition deserialize (data : json) : result objectfile :=
+  o <- deserialize_core data ;;
+  if jhas "debug" data then Internal NotImplemented else Ok o.
 
 (* ------------------------------------------------------------------ archive.py *)
 Definition archive_save (objs : list objectfile) : json :=
